@@ -1,6 +1,6 @@
 (* C06 - Unreal 2 replies decode strings and lists without loss or addition. *)
 From GD Require Import Base.Prelude Model.Strings Model.StrOps Model.Buffer Model.Unreal2Str Model.Net Model.Valve Model.Unreal2 Spec.Unreal2Spec.
-From GD Require Import Proofs.BufferLemmas Proofs.Msafe Proofs.Unreal2StrProofs Proofs.Unreal2Total Proofs.Unreal2Lists.
+From GD Require Import Proofs.BufferLemmas Proofs.Msafe Proofs.Unreal2StrProofs Proofs.Unreal2Total Proofs.Unreal2Lists Proofs.Unreal2Accum.
 
 (* latin1: for EVERY length byte below 0x80 and every content (text outside the
    control range, colour codes with any components but 1b, optional terminating
@@ -63,6 +63,28 @@ Print Assumptions c06_players_datagram.
 
 (* the whole query, for every script: total; only the three 79 00 00 00 <kind>
    requests are sent; at most 50 player slots are reserved *)
+(* lists that span several datagrams: the players of all the datagrams of the reply, in arrival order, players and
+   bots apart; reading stops once the announced number is reached.  Mutators and rules: every further datagram of
+   that kind adds its pairs until nothing more arrives (side condition: each datagram within the 1024-byte receive) *)
+Theorem c06_players_accumulate : forall (rest : list (list (N * wire_string * N * Z * N))) g fuel num acc t f sn cur tr,
+  Forall (Forall player_ok) (g :: rest) -> Forall (fun x => x <> []) (g :: rest) ->
+  Forall (fun x => (length (enc_u2_players x) <= 1024)%nat) rest ->
+  num = count_ps acc + lenN (concat (g :: rest)) ->
+  (length rest < fuel)%nat ->
+  exists tr', more_players fuel num acc (enc_u2_players g) (mknet (map Datagram (map enc_u2_players rest)) t f sn cur tr)
+              = (Ok (fold_left add_player (map expected_player (concat (g :: rest))) acc), mknet [] t f sn cur tr').
+Proof. exact players_accumulate. Qed.
+Print Assumptions c06_players_accumulate.
+Theorem c06_rules_accumulate : forall (rest : list (list (wire_string * wire_string))) fuel acc (u : list udp_event) t f sn cur tr,
+  Forall (Forall (fun kv => ws_ok (fst kv) /\ ws_ok (snd kv))) rest ->
+  Forall (fun x => (length (enc_u2_pairs x) <= 1024)%nat) rest ->
+  (length rest < fuel)%nat ->
+  (u = [] \/ exists u', u = Timeout :: u') ->
+  exists tr', more_mr fuel acc (mknet (map Datagram (map enc_u2_pairs rest) ++ u) t f sn cur tr)
+              = (Ok (fold_left (fun a l => expected_pairs l a) rest acc), mknet (tl u) t f sn cur tr').
+Proof. exact rules_accumulate. Qed.
+Print Assumptions c06_rules_accumulate.
+
 Theorem c06_u2_total : forall port g t u tc sf, settings_ok t -> safe (fst (u2_query port g t (net_init u tc sf))).
 Proof. exact u2_total. Qed.
 Print Assumptions c06_u2_total.
